@@ -58,6 +58,11 @@ CHECKS = {
    text="For all 37 indicators: generated configurations, sequences of set(name, text) with own/foreign/near-miss/random names and typed/boundary/garbage texts judged by 'exactly the named key changes to the independently parsed value, else Err and unchanged' on the serialized configuration, with the Box<dyn IndicatorConfigDyn> twin in lock-step; result shape = size() at every step of generated streams; name() = NAME = frozen table for config/instance/dyn; dyn init/next/over bit-identical to static; defaults validate, initialise and accept their own values; IndicatorResult::new truncation model.",
    note="Trusted: serde_json view of the configuration (all fields pub), std parsers and the C18 grammar oracles as the independent parse.",
    ref="DESIGN.md §5 C11"),
+ "C13": dict(
+   technique="PBT round-trip differential (original vs restored on a continuation, bit-exact) + generated adversarial serialized forms for Window/SMM",
+   text="Every serializable method (44 kinds + 15 MA kinds), 36 indicator instances and all 37 configurations: snapshot at generated points (every ring phase of short windows, window-less variants), JSON text, restore, identical re-serialization, bit-identical outputs/peeks on the continuation, equal final state. Adversarial Window<u32> and SMM JSON: Err, or Ok equal to the model rotation of the buffer; valid data must be accepted; no panic.",
+   note="Format: serde_json with float_roundtrip (bit-exact finite floats). Snapshots containing a non-finite float are skipped and counted. Example's instance type has no serde impl.",
+   ref="DESIGN.md §5 C13"),
 }
 
 PENDING = {
